@@ -315,6 +315,24 @@ func (p *Proc) execAssign(st *State, x *ast.AssignStmt) {
 			vals = append(vals, p.eval(ec, r))
 		}
 	}
+	// x.f = append(x.f, cb) with a pending field
+	if len(x.Lhs) == 1 && len(x.Rhs) == 1 {
+		if sel, ok := ast.Unparen(x.Lhs[0]).(*ast.SelectorExpr); ok {
+			if call, ok := ast.Unparen(x.Rhs[0]).(*ast.CallExpr); ok && len(call.Args) == 2 {
+				if id, ok := call.Fun.(*ast.Ident); ok && id.Name == "append" {
+					if s := ec.info.Selections[sel]; s != nil {
+						if f, ok := s.Obj().(*types.Var); ok {
+							owner := s.Recv()
+							if e, ok := deref(owner); ok {
+								owner = e
+							}
+							p.pendingStore(ec, owner, f, call.Args[1])
+						}
+					}
+				}
+			}
+		}
+	}
 	for i, l := range x.Lhs {
 		if id, ok := l.(*ast.Ident); ok && x.Tok == token.DEFINE {
 			if id.Name == "_" {
